@@ -33,7 +33,7 @@ MANIFEST = dict(
          "interpolation) x follow-up steps (filter, derive, select, exclusion, take, sort, aggregate, group, window, join on either side, append, let), relation "
          "literals and from_text (csv, both json layouts), plus random compositions: the inner SQL text run BY ITSELF on SQLite tells the relation's true "
          "columns, the frame semantics of the pipeline gives the expected result columns of the compiled program; set operations whose top is pruned / reordered around them (chained derives, double appends) are judged on SQLite row by row, and every recorded call of the positional mapper is replayed through Model.Positional (theorems under C07).",
-    note="The alias layer is not mirrored in Lean (covered by the result-column comparison only); whether the Lowerer's requests "
+    note="The alias decision of translate_select_item is mirrored (Model.Projection.aliasOf: select_item_carries_the_frame_name, alias_only_when_needed, alias_comparison_is_exact, unnamed_column_hides_the_inferred_name; every recorded call replayed), the naming of generated columns (ensure_column_name / load_names) is not; whether the Lowerer's requests "
          "always satisfy the hypothesis WF of wildcards_exact is not proved (exercised from source by the exclusion stream). Dialects other than sqlite/generic are compared on the text of the final projection, not executed.",
     technique="Lean 4 proofs on the select-item deduplication kernel (hook-level correspondence) + result-column oracle on SQLite", ref="4/C05")
 
@@ -188,7 +188,8 @@ def run(ctx):
                            "wildcards_exact", "wildcards_output_sublist", "wildcards_no_exclude_superset",
                            "wildcards_duplicate_star_counterexample", "exEnv_wf",
                            "wildcards_exact_emitted", "wildcards_duplicate_star_emitted_counterexample", "wildcards_excluded_known",
-                           "extract_atomic_selects_exactly_the_frame", "widened_select_shape"])
+                           "extract_atomic_selects_exactly_the_frame", "widened_select_shape", "select_item_carries_the_frame_name", "alias_only_when_needed",
+                           "alias_comparison_is_exact", "unnamed_column_hides_the_inferred_name"])
     ctx.rule = ("(i) deduplicate_select_items: every list of <= 4 items over a 4-identifier alphabet (compound 1-2 parts / alias / other) "
                 "exhaustively + random longer lists, real function (hook) vs Lean mirror; translate_wildcards: every request of <= 4 column ids "
                 "over {2 known + star, 1 known + star, 1 computed} + random instances/requests, hook vs mirror and hook vs theorem statements; (ii) generated programs x databases: names, "
@@ -479,12 +480,39 @@ def run(ctx):
     if hooked:
         ctx.obligation("correspondence: extract_atomic / determine_select_columns = Model.Anchor.extractAtomic / determineSelect on every recorded call; "
                        "the returned Select is the requested output", n_bad == 0 and n_ev > 0, f"{n_ev} recorded calls replayed, {n_bad} differ")
+        n_al, n_albad = alias_replay(ctx, [c.prql for c in hidden] + [relgen.make_case(random.Random(5158 + i), **FULL).prql for i in range(200 if quick else 2000)]
+                                     + [relgen.make_case(random.Random(5258 + i), **UNDECL).prql for i in range(100 if quick else 1000)])
+        ctx.obligation("correspondence: the alias decision of translate_select_item = Model.Projection.aliasOf on every recorded call", n_albad == 0 and n_al > 0,
+                       f"{n_al} recorded calls replayed, {n_albad} differ")
         n_pm, n_pmbad, _ = postrace.run_suite(ctx, [p_["prql"] for p_ in appendshapes.programs()], "positional", targets=("sql.sqlite", "sql.postgres"))
         ctx.obligation("correspondence: the positional mapper of set operations = Model.Positional on every recorded call", n_pmbad == 0 and n_pm > 0,
                        f"{n_pm} recorded calls replayed, {n_pmbad} differ")
     else:
         ctx.assumptions.append("the trace hooks are not available in this tree: the extract_atomic mirror was not compared this run")
     ctx.obligation("oracle: result columns = final frame (all unlisted cases)", not [v for v in ctx.violations if v["kind"] == "failing-input"], "")
+
+
+def alias_replay(ctx, progs, targets=("sql.sqlite", "sql.postgres")):
+    """every recorded call of translate_select_item (inferred name, name in the frame, alias written) through Model.Projection.aliasOf"""
+    enc = lambda x: "-" if x is None else "n:" + ".".join(str(ord(ch)) for ch in x)
+    ans = vh_batch([{"op": "hook_split_trace", "prql": p, "target": t} for p in progs for t in targets])
+    items = []
+    for (p, t), a in zip([(p, t) for p in progs for t in targets], ans):
+        for ev in (a or {}).get("events") or []:
+            if ev.get("event") == "select_item":
+                fresh = ev["alias"] if (ev["expected"] is None and ev["alias"] is not None) else "_fresh"
+                items.append((p, t, ev, f"selalias\t{enc(ev['inferred'])}\t{enc(ev['expected'])}\t{enc(fresh)}"))
+    res = drv_batch([it[3] for it in items])
+    bad = 0
+    for (p, t, ev, line), a in zip(items, res):
+        ctx.case(("alias", line))
+        ctx.count("alias:" + ("aliased" if ev["alias"] is not None else "bare") + (":unnamed-column" if ev["expected"] is None else ""))
+        want = enc(ev["alias"])
+        if a.split(" ")[0] != want:
+            bad += 1
+            ctx.disagreement("select-item-alias", f"translate_select_item differs from Model.Projection.aliasOf: inferred {ev['inferred']!r}, in the frame {ev['expected']!r}: "
+                             f"real alias {ev['alias']!r}, model `{a}`", {"prql": p, "target": t, "event": ev, "model": a})
+    return len(items), bad
 
 
 def replay(obj):
